@@ -58,7 +58,7 @@ func loadRepo(repo string) (*Loaded, error) {
 			return nil, fmt.Errorf("package %s does not type-check: %v", p.PkgPath, p.Errors[0])
 		}
 	}
-	prog, spkgs := ssautil.AllPackages(pkgs, ssa.GlobalDebug)
+	prog, spkgs := ssautil.AllPackages(pkgs, ssa.GlobalDebug|ssa.InstantiateGenerics)
 	prog.Build()
 	ld := &Loaded{prog: prog, byKey: map[string]*ssa.Function{}, pkgsByName: map[string]*types.Package{}}
 	for _, p := range prog.AllPackages() {
@@ -178,7 +178,12 @@ func main() {
 		os.Exit(replayMain(*flagReplay))
 	}
 	t0 := time.Now()
-	loadBaseNames(*flagNames)
+	if !*flagWriteBaseline {
+		// the baseline run defines the names; it must not be interpreted through an older record
+		loadBaseNames(*flagNames)
+	} else {
+		baseNames = map[string]*fnNames{}
+	}
 	ld, err := loadRepo(*flagRepo)
 	if err != nil {
 		fmt.Fprintln(os.Stderr, "load error:", err)
